@@ -71,6 +71,34 @@ int main(int argc, char** argv) {
   if (strict && (options & NONSTANDARD)) {
     strict = false;   // strict mode is only required to accept text produced without the non-standard options
   }
+  if (a.mode == "compare") {
+    // equality of JSON values through operator== / operator<=> on witnesses of every clause of contracts/C04_compare.h: a value equals its
+    // copy and its round trip; strings are compared over their FULL byte sequences (embedded NUL bytes included); different values differ
+    int bad = 0;
+    auto chk = [&](bool ok, const char* what) { if (!ok) { printf("POSTCONDITION VIOLATED on the real code: %s\n", what); bad = 1; } };
+    std::string nul1("a\0b", 3), nul2("a\0c", 3), nul3("a", 1), only_nul("\0", 1);
+    for (const std::string& sv : {nul1, nul2, nul3, only_nul, std::string("plain"), std::string()}) {
+      JSON v(sv);
+      JSON copy = v;
+      chk(v == copy, "a string value does not compare equal to its copy");
+      chk((v <=> copy) == std::partial_ordering::equivalent, "string <=> copy is not equivalent");
+      chk(v == sv, "JSON(s) == s is false for the std::string it was built from");
+      JSON back = JSON::parse(v.serialize());
+      chk(back == v, "parse(serialize(string value)) != value");
+    }
+    chk(!(JSON(nul1) == JSON(nul2)), "strings that differ after an embedded NUL compare equal");
+    chk(!(JSON(nul1) == JSON(nul3)), "a string compares equal to its prefix up to the first NUL");
+    chk((JSON(nul1) <=> JSON(nul2)) == std::partial_ordering::less, "a\\0b <=> a\\0c is not less");
+    chk(JSON(int64_t(5)) == JSON(int64_t(5)) && !(JSON(int64_t(5)) == JSON(int64_t(6))), "integer equality");
+    chk(JSON(int64_t(5)) == JSON(5.0) && JSON(2.5) == JSON(2.5) && !(JSON(2.5) == JSON(3.5)), "int/float numeric equality");
+    chk(JSON(true) == JSON(true) && !(JSON(true) == JSON(false)), "bool equality");
+    chk(JSON(nullptr) == JSON(nullptr), "null equality");
+    chk(!(JSON("1") == JSON(int64_t(1))) && !(JSON(nullptr) == JSON(false)), "values of different alternatives compare equal");
+    JSON l1 = JSON::list({JSON(nul1), JSON(int64_t(1))}), l2 = JSON::list({JSON(nul2), JSON(int64_t(1))});
+    chk(l1 == JSON::list({JSON(nul1), JSON(int64_t(1))}) && !(l1 == l2), "list equality with strings containing NUL");
+    if (!bad) printf("holds on the witness values\n");
+    return bad;
+  }
   if (a.mode == "float_roundtrip") {
     double v;
     if (a.has("in_v") && !a.has("in_text")) {
